@@ -22,8 +22,8 @@ type Printer struct {
 	// Multiline enables newline / comment choice points inside array and map literals.
 	Multiline bool
 	litDepth  int
-	sb       strings.Builder
-	ncomment int
+	sb        strings.Builder
+	ncomment  int
 }
 
 func (p *Printer) ch(n int, label string) int {
@@ -61,7 +61,11 @@ func (p *Printer) Program(pr *Prog) string {
 	p.vertical(0, "file-start")
 	p.stmts(pr.Stmts, 0)
 	p.vertical(0, "file-end")
-	return p.sb.String()
+	out := p.sb.String()
+	if p.Vertical && p.ch(2, "no-final-newline") == 1 {
+		out = strings.TrimSuffix(out, "\n")
+	}
+	return out
 }
 
 var prec = map[string]int{
@@ -118,6 +122,10 @@ func (p *Printer) expr(e Expr, tight bool) string {
 		return v.Op + x
 	case Binary:
 		if tight && (v.Op == "and" || v.Op == "or") {
+			if p.Horizontal && p.ch(2, "tight-andor") == 1 {
+				// the keyword operators need no blanks next to parentheses: (a)and(b)
+				return p.paren(p.top(v.L)) + v.Op + p.paren(p.top(v.R))
+			}
 			return p.paren(p.expr(e, false))
 		}
 		pr := prec[v.Op]
@@ -207,7 +215,7 @@ func (p *Printer) litSep(kind, def string) string {
 	if !p.Multiline || p.Ch == nil {
 		return def
 	}
-	switch p.Ch(4, "lit-"+kind) {
+	switch p.Ch(7, "lit-"+kind) {
 	case 1:
 		return "\n"
 	case 2:
@@ -215,6 +223,15 @@ func (p *Printer) litSep(kind, def string) string {
 		return " // m" + strconv.Itoa(p.ncomment) + "\n"
 	case 3:
 		return "\n\n"
+	case 4: // a comment on its own line
+		p.ncomment++
+		return "\n// m" + strconv.Itoa(p.ncomment) + "\n"
+	case 5: // two blank lines, then a comment on its own line
+		p.ncomment++
+		return "\n\n\n// m" + strconv.Itoa(p.ncomment) + "\n"
+	case 6: // a trailing comment, a blank line, a comment on its own line
+		p.ncomment += 2
+		return " // m" + strconv.Itoa(p.ncomment-1) + "\n\n    // m" + strconv.Itoa(p.ncomment) + "\n"
 	}
 	return def
 }
@@ -267,9 +284,15 @@ func (p *Printer) indent(depth int) string {
 
 func (p *Printer) eol() string {
 	s := ""
-	if p.Comments && p.ch(2, "trailing-comment") == 1 {
-		p.ncomment++
-		s = p.pick("ws-before-comment", " ", "", "  ") + "// c" + strconv.Itoa(p.ncomment)
+	if p.Comments {
+		switch p.ch(3, "trailing-comment") {
+		case 1:
+			p.ncomment++
+			s = p.pick("ws-before-comment", " ", "", "  ") + "// c" + strconv.Itoa(p.ncomment)
+		case 2: // a comment that itself ends in blanks
+			p.ncomment++
+			s = p.pick("ws-before-comment", " ", "", "  ") + "// c" + strconv.Itoa(p.ncomment) + " \t"
+		}
 	}
 	return s + p.pick("ws-line-end", "", " ", "\t", " \r") + "\n"
 }
